@@ -72,6 +72,9 @@ func (db *DB) GetBucket(i uint) (*Bucket, error) {
 	if readErr != nil {
 		return nil, readErr
 	}
+	if bucket.HashLen != 3 {
+		return nil, fmt.Errorf("unsupported hash length: %d", bucket.HashLen)
+	}
 	bucket.Entries = io.NewSectionReader(db.Stream, int64(bucket.FileOffset), int64(bucket.NumEntries)*int64(bucket.Stride))
 	if db.prefetch {
 		// TODO: find good value for numEntriesToPrefetch
